@@ -10,7 +10,7 @@
 (*   write of the status file (an observer polling the status file sees exactly this)                *)
 EXTENDS TraceLib, TagRecords
 
-TP == INSTANCE TagPipeline WITH NMol <- 0, NJobs <- 0, Pipelines <- {}, PrevChoices <- {}, SizeChoices <- {},
+TP == INSTANCE TagPipeline WITH Mutation <- "none", NMol <- 0, NJobs <- 0, Pipelines <- {}, PrevChoices <- {}, SizeChoices <- {},
                                 StatusOrder <- "design", PlanVariant <- "design",
                                 pipeline <- "", prev <- FALSE, size <- <<>>, pc <- "", status <- "", unsorted <- <<>>, out <- <<>>,
                                 bai <- "", w <- <<>>, planned <- {}, collected <- {}, tries <- 0, crashed <- FALSE,
